@@ -23,10 +23,16 @@ IRec(p) == Rec([Name |-> Leaf(p \o ".Name")])
 KEnd(p) == RecM([Name |-> Leaf(p \o ".Name"), Tags |-> AT(<<Leaf(p \o ".Tags[0]"), Leaf(p \o ".Tags[1]")>>, "strs"),
                  Inner |-> IRec(p \o ".Inner"), InnerPtr |-> IRec(p \o ".InnerPtr"), NilInner |-> Nil, Sub |-> Nil],
                 [Hello |-> Leaf(p \o ".Hello()"), Shout |-> Leaf(p \o ".Shout()")])
+\* what Twin() returns: a K whose own Twin() can be called again (the same method name chained up to three times)
+RECURSIVE KT(_, _)
+KT(p, d) == IF d = 0 THEN KEnd(p)
+            ELSE RecM([Name |-> Leaf(p \o ".Name"), Tags |-> AT(<<Leaf(p \o ".Tags[0]"), Leaf(p \o ".Tags[1]")>>, "strs"),
+                       Inner |-> IRec(p \o ".Inner"), InnerPtr |-> IRec(p \o ".InnerPtr"), NilInner |-> Nil, Sub |-> Nil],
+                      [Hello |-> Leaf(p \o ".Hello()"), Shout |-> Leaf(p \o ".Shout()"), Twin |-> KT(p \o ".Twin()", d - 1)])
 KRec(p) == RecM([Name |-> Leaf(p \o ".Name"), Sub |-> KEnd(p \o ".Sub"),
                  Tags |-> AT(<<Leaf(p \o ".Tags[0]"), Leaf(p \o ".Tags[1]")>>, "strs"),
                  Inner |-> IRec(p \o ".Inner"), InnerPtr |-> IRec(p \o ".InnerPtr"), NilInner |-> Nil],
-                [Hello |-> Leaf(p \o ".Hello()"), Shout |-> Leaf(p \o ".Shout()"), Twin |-> KEnd(p \o ".Twin()")])
+                [Hello |-> Leaf(p \o ".Hello()"), Shout |-> Leaf(p \o ".Shout()"), Twin |-> KT(p \o ".Twin()", 2)])
 RRec(p) == RecM([Name |-> Leaf(p \o ".Name"),
                  Kid |-> KRec(p \o ".Kid"), NilKid |-> Nil,
                  Kids |-> A(<<KRec(p \o ".Kids[0]"), KRec(p \o ".Kids[1]")>>),
@@ -41,8 +47,9 @@ RRec(p) == RecM([Name |-> Leaf(p \o ".Name"),
 Data == [r |-> RRec("r"), rp |-> RRec("rp"),
          rs |-> A(<<RRec("rs[0]"), RRec("rs[1]")>>),
          rm |-> M([a |-> RRec("rm[a]")]),
+         k |-> KRec("k"), ks |-> A(<<KRec("ks[0]"), KRec("ks[1]")>>),
          i0 |-> I(0), i1 |-> I(1), i9 |-> I(9), ka |-> S(<<"a">>), kz |-> S(<<"z", "z">>)]
-Roots == {"r", "rp", "rs", "rm"}
+Roots == {"r", "rp", "rs", "rm", "k", "ks"}
 
 Unexported == "secret"
 VARIABLES e, v, n,     \* path expression, value reached ([t |-> "fail"] once navigation cannot be completed), steps
